@@ -13,7 +13,7 @@ from vlib import VERIF, CACHE, sh
 BASE = os.path.join(VERIF, "coq", "base")
 AREA = os.path.join(VERIF, "coq", "readers")
 QFLAGS = "-Q ../base FlacBase -Q . FlacReaders"
-REQUIRES = ["FlacReaders.Spec", "FlacReaders.Props_C06", "FlacReaders.Props_C07", "FlacReaders.Props_Damaged", "FlacReaders.Pins"]
+REQUIRES = ["FlacReaders.Spec", "FlacReaders.Props_C06", "FlacReaders.Props_C07", "FlacReaders.Props_Damaged", "FlacReaders.Props_NoPanic", "FlacReaders.Pins"]
 
 ASSUMPTIONS = [
     "the decoder core is abstract: Decoder::read_frame over a valid stream hands out the decoded frames in order and then end-of-stream for ever (theorems hold for every list of well-formed frames; that the real decoder does this is C03/C05's business and is exercised here on every generated file)",
